@@ -1,14 +1,9 @@
 package lzma
 
-import (
-	"errors"
-	"io"
-)
+import "io"
 
 // Nondeterministic environment models shared by the lzma harnesses.
 
-var vErrSrc = errors.New("verif: source failure")
-var vErrSink = errors.New("verif: sink failure")
 
 // vByteSrc is an io.ByteReader returning arbitrary bytes; it may end
 // (io.EOF) or fail (vErrSrc) at any call and stays ended/failed afterwards.
